@@ -199,6 +199,7 @@ PROPS = {
         "theorems": ["histSet_sorted", "histGet_histSet", "weightAt_histSet_before", "address_scan_eq_weightAt", "contract_scan_eq_weightAt",
                      "sync_preserves_weightAt", "farm_terms_sum_eq_ledger", "epoch_share_floor", "query_eq_claim_single_lp"],
         "streams": {"fm_hist": (80, 4000)},
+        "also_tags": ["C06-overpaid"],   # C07 says "never more": the ledger monitor's over-payment tag decides C07 as well
         "what": "refinement core: the user scan and the total-weight scan of the compacted history compute the ledger's weight in effect (Spec.weightAt); "
                 "claim-time compaction preserves the weight in effect from the claimed epoch on (schedule independence); a farm's terms add up to "
                 "the ledger entitlement Spec.spanReward; each payment is the floor of the exact share; Rewards query = Claim payout (single LP token)",
